@@ -652,6 +652,11 @@ fn enum_grid_cases(recvs: &[Recv], r: &Recv, rng: &mut Rng, _prop: &str, iter: u
         names.push((format!("q::{base}"), None));
         names.push((format!("{base}::q"), None));
     }
+    // `r#` is spelling where an identifier is written (`choice(r#plain)` names `plain`); inside a string
+    // it is two more characters, and the string names nothing
+    if addressable(&base) && !base.contains("::") && !base.contains('-') {
+        names.push((format!("r#{}", base.trim_start_matches("r#")), None));
+    }
     if names.is_empty() {
         return vec![];
     }
